@@ -234,6 +234,13 @@ Inductive iop :=
 | IUnknown (src : string).
 
 (* ===== Decorator (decorator-node-generated.go), statement by statement ================= *)
+(* where a value assigned by the decorator comes from *)
+Inductive vsrc :=
+| VCopy (p : path)            (* n.P, or a type conversion T(n.P) *)
+| VValid (p : path)           (* n.P.IsValid() *)
+| VConst (s : string)         (* true / false *)
+| VExpr (s : string).         (* anything else *)
+
 Inductive nstmt :=
 | NNew (ty : string) | NReturn
 | NMapDst (p : path) | NMapAst (p : path)         (* f.Dst.Nodes[n.P] = out.P ; f.Ast.Nodes[out.P] = n.P *)
@@ -242,7 +249,7 @@ Inductive nstmt :=
 | NNode (p o : path) (k f t asserted : string)    (* if n.P != nil { child, err := f.decorateNode(n, k, f, t, n.P); ...; out.O = child.(asserted) } *)
 | NList (p o : path) (k f t asserted : string)
 | NMapNodes (p : path) (k f t : string)
-| NSet (o : path)                                 (* out.O = <value expression not involving the maps> *)
+| NSet (o : path) (v : vsrc)                      (* out.O = <value expression not involving the maps> *)
 | NDecs (points : list string)
 | NErrCheck
 | NSelectorHook
